@@ -104,6 +104,24 @@ Theorem C03_no_downgrade :
 Proof. exact no_downgrade. Qed.
 Print Assumptions C03_no_downgrade.
 
+(* Every public entry point that reports something learned from the handshake reports it only after
+   acceptance.  For get_server_host_key() (wait='kex'): a key is returned only if the signature over the hash
+   of the client's whole view verified under THAT key; so (honest key holder) the returned key is the key of
+   a server session with the same versions and KEXINITs - never a blob substituted in flight. *)
+Theorem C03_returned_key :
+  forall (hash : bytes -> bytes) (verify : bytes -> bytes -> bytes -> bool) (signed : bytes -> bytes -> Prop),
+  (forall ks m s, verify ks m s = true -> signed ks m) ->
+  forall (ec_ok : bytes -> bool) (famof : bytes -> Z) (server_session : view -> Prop),
+  (forall v, server_session v -> wf v /\ family_ok famof v) ->
+  forall vC p sig k,
+  wf vC -> kex_wait_result hash verify ec_ok p vC sig = Some k ->
+  honest_signer hash signed server_session k ->
+  exists vS, server_session vS /\
+    ((k = k_s vS /\ v_c vC = v_c vS /\ v_s vC = v_s vS /\ i_c vC = i_c vS /\ i_s vC = i_s vS) \/
+     collision hash vC vS).
+Proof. exact returned_key. Qed.
+Print Assumptions C03_returned_key.
+
 (* choose_first: _choose_alg returns a exactly when a is on the client's list, the server lists it, and
    no earlier entry of the client's list is listed by the server. *)
 Theorem C03_choose_first : forall client server a,
